@@ -5,7 +5,7 @@ import re
 
 from . import rfc6901 as P
 
-_REL = re.compile(r"^(0|[1-9][0-9]*)([+-](?:[1-9][0-9]*))?(#|(?:/.*)?)$", re.S)
+_REL = re.compile(r"(0|[1-9][0-9]*)([+-](?:[1-9][0-9]*))?(#|(?:/.*)?)", re.S)
 
 
 class RelError(Exception):
@@ -14,7 +14,7 @@ class RelError(Exception):
 
 def parse(text):
     """-> (steps, offset, suffix) where suffix is '#' or a list of tokens; ValueError if malformed"""
-    m = _REL.match(text)
+    m = _REL.fullmatch(text)
     if not m:
         raise ValueError("not a relative JSON pointer: %r" % text)
     steps = int(m.group(1))
@@ -72,7 +72,7 @@ def selftest():
         got = apply(base, *parse(text))
         if got != want:
             errs.append("relative pointer %r on %r: %r" % (text, base, got))
-    for bad in ["", "-1", "01", "0+0", "0-", "0+01", "a", "0x", "1#/a"]:
+    for bad in ["", "-1", "01", "0+0", "0-", "0+01", "a", "0x", "1#/a", "0#\n", "0\n"]:
         try:
             parse(bad)
             errs.append("relative pointer %r should be malformed" % bad)
